@@ -14,7 +14,7 @@ from . import c04
 LEVEL = 'exploration'
 TECHNIQUE = 'metamorphic runtime monitoring: connection B after history A on one object vs B on a fresh object'
 BUDGET_S = {'quick': 30, 'thorough': 200}
-REQUIRED = {'all': ['oracle.pairs_compared', 'oracle.stale_iterator_finalised_during_next_connection', 'oracle.keys_compared', 'oracle.persist_chains', 'oracle.compressed_frames_inflated']}
+REQUIRED = {'all': ['oracle.pairs_compared', 'oracle.stale_iterator_finalised_during_next_connection', 'oracle.stale_iterator_stepped_during_next_connection', 'oracle.keys_compared', 'oracle.persist_chains', 'oracle.compressed_frames_inflated']}
 RULE = ('metamorphic: history A (with an abnormal ending: EOF mid-header / mid-frame-header / mid-extended-length / '
         'mid-payload / inside a fragmented message / inside a split UTF-8 character / after compressed traffic in '
         'both directions / while closing / rejected / connect failure / protocol error / unresponsive / abandoned '
@@ -73,6 +73,10 @@ def a_histories(z):
                               ckw=dict(ping_rate=0, close_timeout=2.0, poll=1.0), horizon=10.0)
     for k in (1, 2, 3, 4, 6):
         A['abandon@%d' % k] = dict(steps=[('raw', F(1, b'a', fin=0) + F(9, b'p') + F(0, b'\xc3', fin=0))], abandon=k)
+    # abandoned while the server still has things to say: whoever keeps iterating that older loop (another thread, a
+    # consumer that hands over gradually) gets them - on the connection they were sent on
+    A['abandon-live'] = dict(steps=[('raw', F(1, b'one')), ('at', 0.5), ('raw', F(9, b'late-ping') + F(1, b'late text')), ('at', 1.0),
+                                    ('raw', F(8, refws.close_payload(1000, 'old'))), ('await_close',), ('eof',)], abandon=5)
     # the application keeps using the object between two connections (persist() hands it BackOff events to do so):
     # close() while there is no connection, sends that fail - none of it may leak into the next attempt
     A['connect-fail-then-app-close'] = dict(gai=True, steps=[], after=[['close']])
@@ -181,6 +185,11 @@ def cases(tier, seed, i, n):
                 for bn in B:
                     for at in (-1, 0, 1, 2, 3, 5):
                         yield dict(z=z, a=an, b=bn, via='connect', stale_at=at)
+                    if an in ('abandon-live', 'closing-abandoned', 'abandon@3', 'z-context-abandon'):
+                        # ... or it is not finalised at all but still ITERATED (by the thread that owns it) while
+                        # the next connection is made and used
+                        for at in (-1, 0, 1, 2, 3):
+                            yield dict(z=z, a=an, b=bn, via='connect', stale_at=at, stale_mode='step')
         for call2 in ('send_text', 'send_binary', 'close'):
             yield dict(kind='stuck-sender', call2=call2)
         rnd = random.Random(seed * 523 + 17)
@@ -226,7 +235,8 @@ def observe_b(run, w, z):
 
 
 def run_one(ws, h, z, seg=None, abandon=None, keep_open=False, stale=None, via_iter=False):
-    """stale = (generator, its world, point): finalise that older iterator at `point` of this connection"""
+    """stale = (generator, its world, point[, mode]): finalise that older iterator at `point` of this connection, or
+    (mode 'step') advance it by two events there and by two more after every later event"""
     spec = world_for(h, z, seg)
     w = H.World(lambda _i: simnet.ScriptServer(spec['steps']), gai_error=spec['gai'], horizon=spec['horizon'],
                 stop_at=spec['horizon'] or None, cuts=spec['cuts'], budget=200000, addrs=spec['addrs'])
@@ -243,10 +253,25 @@ def run_one(ws, h, z, seg=None, abandon=None, keep_open=False, stale=None, via_i
     policy = H.TablePolicy(h.get('policy'))
     pre_iter = None
     if stale is not None:
-        sgen, sworld, point = stale
+        sgen, sworld, point = stale[:3]
+        smode = stale[3] if len(stale) > 3 else 'close'
         done = []
+        stepped = []
 
         def finalise():
+            if smode == 'step' and not done:
+                # two more events of the older loop (each in its own world: own clock, own server)
+                with simnet.Installed(sworld):
+                    for _ in range(2):
+                        try:
+                            stepped.append(H.norm(next(sgen)))
+                        except StopIteration:
+                            done.append('stop')
+                            break
+                        except (simnet.Quiesced, simnet.BudgetExceeded):
+                            done.append('quiesced')
+                            break
+                return
             if not done:
                 done.append(1)
                 with simnet.Installed(sworld):
@@ -258,14 +283,19 @@ def run_one(ws, h, z, seg=None, abandon=None, keep_open=False, stale=None, via_i
         inner = policy
 
         def policy(ws_, ev, idx, run_):    # noqa
-            if idx == point:
+            if idx == point or (smode == 'step' and idx > point):
                 finalise()
             inner(ws_, ev, idx, run_)
     run = H.drive(w, ws=ws, ws_kwargs=dict(compress=bool(z), proxies=PROXIES), connect_kwargs=ckw_of(h),
                   policy=policy, stop_after=abandon, pre_iter=pre_iter, via_iter=via_iter)
     if stale is not None:
-        run.stale_finalised = bool(done)
+        run.stale_finalised = bool(done) or bool(stepped)
+        run.stale_stepped = stepped
         finalise()
+        if smode == 'step' and not done:
+            done.append(1)
+            with simnet.Installed(sworld):
+                sgen.close()
     if keep_open:
         return run, w
     if abandon is not None or run.end in ('quiesced', 'stopped'):
@@ -386,10 +416,13 @@ def _run_pair(case, acc, z, A, B, chain, hb, seg):
         ra, wa = run_one(None, A[an], z, seg, abandon=A[an].get('abandon'), keep_open=True)
         if wa.conns:
             keys.append(refhttp.request_key(bytes(wa.conns[0].tx)))
-        rb, wb = run_one(ra.ws, hb, z, seg, stale=(ra.gen, wa, case['stale_at']))
+        rb, wb = run_one(ra.ws, hb, z, seg, stale=(ra.gen, wa, case['stale_at'], case.get('stale_mode', 'close')))
         obs, kb = observe_b(rb, wb, z)
         acc.count2('oracle', 'stale_iterator_pairs')
-        if rb.stale_finalised:
+        if rb.stale_finalised and case.get('stale_mode') == 'step':
+            acc.count2('oracle', 'stale_iterator_stepped_during_next_connection')
+            acc.count2('oracle', 'stale_iterator_events_during_next_connection', len(rb.stale_stepped))
+        elif rb.stale_finalised:
             acc.count2('oracle', 'stale_iterator_finalised_during_next_connection')
         if wa.socks and not wa.socks[0].closed:
             acc.violation('stale-iterator-finalised-but-its-own-socket-left-open', 'C17: A=%s B=%s stale_at=%s' % (an, case['b'], case['stale_at']),
@@ -416,6 +449,8 @@ def _run_pair(case, acc, z, A, B, chain, hb, seg):
         key = 'state-leaked-into-next-connection:' + '+'.join(diff)
         if case.get('stale_at') is not None:
             key = 'stale-iterator-of-previous-connection-disturbs-the-next-one'
+            if case.get('stale_mode') == 'step':
+                key = 'previous-connection-still-iterated-disturbs-the-next-one'
         detail = dict(after_previous={k: obs[k] for k in diff}, fresh={k: ref_obs[k] for k in diff})
     for k in keys:
         acc.count2('oracle', 'keys_compared')
